@@ -124,3 +124,174 @@ _contract(True, True, False, True, True)      # one further (generic, symbolic) 
 _contract(True, True, True, True, False)
 # an answer without Session-Id for a request without one
 _contract(False, True, False, False, False)
+
+
+# =========================================================================================
+#  UNBOUNDED: the answer holds ANY list of AVPs (symbolic length); the AVPs the function touches
+#  through the name map -- Session-Id (assigned to in place), Result-Code (popped) -- sit at arbitrary
+#  positions:   _avps == seg0 ++ [first] ++ seg1 ++ [second] ++ seg2    for arbitrary segments.
+#  The Session-Id AVP is a MUTABLE member of that symbolic list (pyvc.values.SSeq.term): the proof
+#  follows the in-place assignment into every later fold over the list (refresh, Message Length).
+# =========================================================================================
+import z3                                                             # noqa: E402
+from pyvc.values import SSeq, RSEQ                                    # noqa: E402
+from pyvc.spec import ghost_get, ghost_set, proved, same             # noqa: E402
+from contracts.common import AVP_ELEM, cat_len, enc_of               # noqa: E402
+
+
+def _answer_any(er):
+    absent = () if er else ("experimental_result_avp",)
+    idict = {"_header": header_shape(), "_avps": T.Seq(AVP_ELEM), "_loaded": T.Const(False)}
+    if er:
+        idict["experimental_result_avp"] = _er()
+    # names nobody generates (has_avp also looks for '<key>_avp'): part of the shape, not of the unknown rest
+    never = ("session_id_avp_avp", "result_code_avp_avp", "experimental_result_avp_avp")
+    return T.Obj(B.DiameterAnswer, idict=idict, open_dict=True,
+                 excluded=("_header", "_avps", "_loaded", "session_id_avp", "result_code_avp") + absent + never)
+
+
+def _placer(sid_first, with_rc):
+    def place(ctx, ns):
+        m = ns["answer"]
+        seq = m.idict.known["_avps"]
+        named = [("session_id_avp", ns["sid"], True)]
+        if with_rc:
+            named.append(("result_code_avp", ns["rc"], False))
+            if not sid_first:
+                named.reverse()
+        segs = [SSeq(z3.Const("c12.seg%d" % i, RSEQ), AVP_ELEM, ("var",)) for i in range(len(named) + 1)]
+        cur = segs[0]
+        refs = []
+        for i, (key, obj, mutable) in enumerate(named):
+            r = AVP_ELEM.adopt(ctx, obj)
+            obj.mutable_elem = mutable
+            refs.append(r)
+            unit = SSeq(z3.Unit(r), AVP_ELEM, ("snoc", SSeq(z3.Empty(RSEQ), AVP_ELEM, ("empty",)), obj))
+            cur = SSeq(z3.Concat(cur.term, z3.Unit(r)), AVP_ELEM, ("concat", cur, unit))
+            cur = SSeq(z3.Concat(cur.term, segs[i + 1].term), AVP_ELEM, ("concat", cur, segs[i + 1]))
+            m.idict.set(ctx, key, obj)
+        ctx.assume_raw(seq.term == cur.term)
+        seq.struct = cur.struct
+        # A-DISTINCT: a named AVP object is listed once (the other members are other objects)
+        for r in refs:
+            for sg in segs:
+                ctx.assume_raw(z3.Not(z3.Contains(sg.term, z3.Unit(r))))
+        if len(refs) == 2:
+            ctx.assume_raw(refs[0] != refs[1])
+        for i, sg in enumerate(segs):
+            ctx.ghost["seg%d" % i] = sg
+        ctx.ghost["nsegs"] = len(segs)
+    return place
+
+
+def segs_len():
+    total = 0
+    for i in range(ghost_get("nsegs")):
+        total = total + slen(ghost_get("seg%d" % i))
+    return total
+
+
+def segs_lemmas():
+    ok = True
+    for i in range(ghost_get("nsegs")):
+        ok = ok and use_lemma(cat_len, ghost_get("seg%d" % i))
+    return ok
+
+
+def _contract_any(sid_first, rc, er, sid_r):
+    nm = "any-list-%s%s%s-req%s" % (("S.R" if sid_first else "R.S") if rc else "S", "", "E" if er else "e",
+                                    "S" if sid_r else "s")
+    a = {"answer": _answer_any(er), "sid": _sid(), "request": _request(sid_r)}
+    if rc:
+        a["rc"] = _rc()
+
+    @contract("bromelia.bromelia.decorate_answer", prop="C12", name=nm)
+    class _C:
+        """decorate_answer on an answer holding ANY number of AVPs: identity of the request, the request's
+        Session-Id carried by the answer's (listed) Session-Id AVP, E bit exactly for 3xxx/4xxx/5xxx, the
+        named Result-Code AVP gone (from the name map and from the list) when an Experimental-Result is
+        present, and Message Length == 20 + the on-wire size of the FINAL list"""
+        args = a
+        setup = _placer(sid_first, rc)
+        assumes = ("A-DISTINCT: the AVP objects named session_id_avp / result_code_avp are listed once each "
+                   "(no other list position holds the same object)",)
+
+        def requires(answer, sid, request):
+            fl = flags_of(answer._header)
+            total = 20 + segs_len() + avp_plen(None, data_of(sid))
+            if rc:
+                total = total + avp_plen(None, data_of(ghost_get("rc0")))
+            grown = total
+            if sid_r:
+                grown = total - avp_plen(None, data_of(sid)) + avp_plen(None, data_of(request.session_id_avp))
+            return segs_lemmas() and use_lemma(cat_len, answer._avps) and fl & 0x80 == 0 and fl & 0x20 == 0 \
+                and unbe(answer._header._length) == 20 + slen(answer._avps) and total < MAX24 and grown < MAX24
+
+        def setup_spec(answer, request):
+            return ghost_set("rc0", answer.result_code_avp if rc else None)
+
+        def call(answer, request):
+            return BB.decorate_answer(answer, request)
+
+        def ensures_identity_of_the_request(answer, request, result):
+            h, q = result._header, request._header
+            return result is answer and h._application_id == q._application_id \
+                and h._hop_by_hop == q._hop_by_hop and h._end_to_end == q._end_to_end
+
+        def ensures_session_id_of_the_request(answer, sid, request):
+            return same(answer.session_id_avp, sid) and \
+                ((not sid_r) or sid._data == request.session_id_avp._data)
+
+        def ensures_error_flag_iff_3xxx_4xxx_5xxx(answer, old):
+            if not rc:
+                return flags_of(answer._header) & 0x20 == 0
+            n = unbe(old.rc._data)
+            return implies(n % 1000 != 0,
+                           (flags_of(answer._header) & 0x20 != 0) == (n // 1000 == 3 or n // 1000 == 4 or n // 1000 == 5))
+
+        def ensures_result_code_gone_beside_experimental_result(answer, old):
+            if not (rc and er):
+                return True
+            y = ghost_get("rm_removed")
+            return not ("result_code_avp" in answer.__dict__) \
+                and answer._avps == ghost_get("rm_before") + ghost_get("rm_after") \
+                and enc_of(y) == enc_of(old.rc)
+
+        def ensures_message_length_matches_content(answer, old):
+            if rc and er:
+                y, v = ghost_get("rm_removed"), old.rc
+                ok = use_lemma(cat_len, ghost_get("rm_before")) and use_lemma(cat_len, ghost_get("rm_after")) \
+                    and proved(len(enc_of(y)) == avp_plen(view_vendor(y), data_of(y)), "wire-size-of-removed") \
+                    and proved(len(enc_of(v)) == avp_plen(view_vendor(v), data_of(v)), "wire-size-of-named") \
+                    and proved(slen(ghost_get("rm_old")) == slen(ghost_get("rm_before"))
+                               + avp_plen(view_vendor(y), data_of(y)) + slen(ghost_get("rm_after")), "old-list-size-splits") \
+                    and proved(slen(answer._avps) == slen(ghost_get("rm_before")) + slen(ghost_get("rm_after")), "new-list-size")
+                return ok and unbe(answer._header._length) == 20 + slen(answer._avps)
+            return unbe(answer._header._length) == 20 + slen(answer._avps)
+
+        def ensures_other_flags_untouched(answer, old):
+            return flags_of(answer._header) & 0xdf == flags_of(old.answer._header) & 0xdf
+
+        def exceptional(exc):
+            return False
+
+        if rc and not er:
+            def control_flag_never_set(answer):
+                return flags_of(answer._header) & 0x20 == 0
+        if sid_r:
+            def control_stale_length(answer, old):
+                return answer._header._length == old.answer._header._length
+    return _C
+
+
+import os as _os                                                      # noqa: E402
+for _sr in (False, True):
+    _contract_any(True, False, False, _sr)
+    for _er_ in (False, True):
+        for _first in (True, False):
+            if _sr and _er_ and _os.environ.get("VERIF_TIER") != "thorough":
+                # in-place Session-Id assignment FOLLOWED by the pop of the Result-Code: ~70 paths of a
+                # sequence-heavy context, 10-15 minutes -- thorough tier only (the quick tier proves the
+                # assignment and the pop separately: *e-reqS and *E-reqs)
+                continue
+            _contract_any(_first, True, _er_, _sr)
